@@ -164,9 +164,12 @@ def axis_case(ctx, rng):
   zp, sc = u.tensor_zp_scale_from_min_max(mn, mx, bits, sym)
   ctx.count('zs_calls')
   # flattened parameters as the flatbuffer stores them -> exercises the rank fix-up
-  flat = rng.random() < 0.5 and rank > 0
-  p = qtyping.UniformQuantParams(bits, axis, sc.flatten() if flat and axis is not None else sc,
-                                 zp.flatten() if flat and axis is not None else zp, symmetric=sym)
+  # (a per-tensor scale is a 1-element vector there whatever the rank of the tensor, rank 0 included)
+  flat = bool(rng.random() < 0.5)
+  # -- built the way UniformQuantParams.from_tfl_tensor_details builds them: quantized_dimension 0 for per-tensor
+  qdim = axis if (axis is not None or not flat or rank == 0) else 0
+  p = qtyping.UniformQuantParams(bits, qdim, sc.reshape(-1) if flat else sc,
+                                 zp.reshape(-1) if flat else zp, symmetric=sym)
   q = u.uniform_quantize(x, p)
   ctx.count('tensors_quantized')
   ctx.count('rank:%d' % rank)
